@@ -19,10 +19,45 @@ func init() {
 // tested-sentinel → returned-sentinel built from `errors.Is(err, X)` tests on that
 // call's error whose true edge leads to a return of a sentinel error.
 func shortReadClasses(fn *ssa.Function) []map[string]string {
+	return shortReadClassesDepth(fn, 1)
+}
+
+// isReadSite: a direct io.ReadFull, or a call to a same-package helper that contains one
+// and returns an error (the framed read moved into a helper).
+func isReadSite(fn *ssa.Function, ci ssa.CallInstruction, depth int) (direct bool, helper *ssa.Function) {
+	if Named("io.ReadFull")(ci.Common()) {
+		return true, nil
+	}
+	if depth <= 0 {
+		return false, nil
+	}
+	h := StaticFn(ci.Common())
+	if h == nil || h.Blocks == nil || h == fn || FuncPkgPath(h) != FuncPkgPath(fn) || ErrorResultIndex(h) < 0 {
+		return false, nil
+	}
+	if len(Calls(h, false, Named("io.ReadFull"))) == 0 {
+		return false, nil
+	}
+	return false, h
+}
+
+func shortReadClassesDepth(fn *ssa.Function, depth int) []map[string]string {
 	var out []map[string]string
 	ei := ErrorResultIndex(fn)
-	for _, rf := range Calls(fn, false, Named("io.ReadFull")) {
+	for _, rf := range Calls(fn, false, func(cc *ssa.CallCommon) bool { return true }) {
+		direct, helper := isReadSite(fn, rf, depth)
+		if !direct && helper == nil {
+			continue
+		}
 		m := map[string]string{}
+		if helper != nil {
+			// classification made inside the helper (its single framed read)
+			if hm := shortReadClassesDepth(helper, depth-1); len(hm) == 1 {
+				for k, v := range hm[0] {
+					m[k] = v
+				}
+			}
+		}
 		ev := ErrResult(rf)
 		if ev == nil {
 			out = append(out, m)
@@ -53,7 +88,16 @@ func shortReadClasses(fn *ssa.Function) []map[string]string {
 					if r, ok := b.Instrs[len(b.Instrs)-1].(*ssa.Return); ok {
 						if ru, ok := RetVal(r, ei).(*ssa.UnOp); ok {
 							if rg, ok := ru.X.(*ssa.Global); ok {
-								m[g.Name()] = rg.Name()
+								if helper != nil {
+									// re-classification of what the helper returned
+									for k, v := range m {
+										if v == g.Name() {
+											m[k] = rg.Name()
+										}
+									}
+								} else {
+									m[g.Name()] = rg.Name()
+								}
 							}
 						}
 						break
@@ -73,6 +117,7 @@ func shortReadClasses(fn *ssa.Function) []map[string]string {
 
 func C13(c *Ctx) {
 	c.Note("equality of replayed and appended record sequences; behaviour for every cut position and segment size (only the classification and the framing arithmetic are decided)")
+	segmentNamesGroup(c, "K12.segment-name-codec")
 	const r1 = "K12.framing-constants"
 	c.Rule(r1, "EncodeRecord writes a 4-byte length, the type byte, the payload and a 4-byte CRC and returns length+8; every consumer that advances an offset by a record (replayFile, verifySegment, memTable.setBatch, openMemTable, AppendRecords' capacity estimate) uses the same overhead; EntryInfo.Length = len(payload)+1")
 	enc := c.Fn("wal", "EncodeRecord")
@@ -185,7 +230,7 @@ func C13(c *Ctx) {
 			{"EOF": "ErrPartialRecord", "ErrUnexpectedEOF": "ErrPartialRecord"},
 		}
 		names := []string{"header", "body", "crc"}
-		c.Decide(len(cls) == 3, r2, key(fn, "readfull-sites"), fn.Pos(), len(cls)+1, "three framed reads", fmt.Sprintf("expected 3 io.ReadFull sites (header, body, crc), found %d", len(cls)))
+		c.Decide(len(cls) == 3, r2, key(fn, "readfull-sites"), fn.Pos(), len(cls)+1, "three framed reads", fmt.Sprintf("expected 3 framed reads (header, body, crc; io.ReadFull directly or through a read helper), found %d", len(cls)))
 		for i := 0; i < len(cls) && i < 3; i++ {
 			c.Decide(sameMap(cls[i], want[i]), r2, key(fn, "short-read:"+names[i]), fn.Pos(), len(cls[i])+1, names[i]+": "+renderSwitch(cls[i]),
 				"short read of the "+names[i]+" is classified {"+renderSwitch(cls[i])+"}, expected {"+renderSwitch(want[i])+"}: a tail cut there would not be truncated (or a clean end would be treated as torn)")
@@ -243,13 +288,27 @@ func C13(c *Ctx) {
 	}
 	if dec := c.Fn("wal", "DecodeRecord"); dec != nil {
 		crcCalls := Calls(dec, false, Named("kv.CRC32"))
-		rfs := Calls(dec, false, Named("io.ReadFull"))
 		n, same := 0, false
 		for _, w := range Calls(dec, false, Named("(hash.Hash).Write", "(io.Writer).Write", "(hash.Hash32).Write")) {
 			if len(crcCalls) > 0 && w.Common().Value == crcCalls[0].Value() {
 				n++
-				if len(rfs) >= 2 && w.Common().Args[0] == rfs[1].Common().Args[1] {
-					same = true
+				hb := w.Common().Args[0]
+				// the hashed buffer was filled from the reader (io.ReadFull or a read helper taking
+				// the reader and this buffer) before it is hashed, and it is the length-sized allocation
+				for _, rd := range Calls(dec, false, func(cc *ssa.CallCommon) bool { return true }) {
+					direct, helper := isReadSite(dec, rd, 1)
+					if !direct && helper == nil {
+						continue
+					}
+					takes := false
+					for _, a := range rd.Common().Args {
+						if a == hb {
+							takes = true
+						}
+					}
+					if _, isMake := hb.(*ssa.MakeSlice); takes && isMake && Dominates(rd.(ssa.Instruction), w.(ssa.Instruction)) {
+						same = true
+					}
 				}
 			}
 		}
